@@ -64,5 +64,4 @@ def run(tier):
 
 
 def replay(path):
-    print("replay: the replay file holds the specification XML and the invalid object; re-run `./bin/check C16 quick`")
-    return 0
+    return gen_replay(path)
